@@ -276,6 +276,17 @@ def HistOK (F : String) : FS → List Attempt → Prop
   | fs, a :: rest =>
     a.tmp ≠ F ∧ (a.trunc = true ∨ fs.dirNow.get a.tmp = none) ∧ HistOK F (runAttempt F fs a) rest
 
+/-- the driver evaluates the discipline with `histOKb` -/
+theorem histOKb_iff (F : String) (as : List Attempt) : ∀ fs, histOKb F fs as = true ↔ HistOK F fs as := by
+  induction as with
+  | nil => intro fs; simp [histOKb, HistOK]
+  | cons a as ih =>
+    intro fs
+    simp only [histOKb, HistOK, Bool.and_eq_true, Bool.or_eq_true, bne_iff_ne, ne_eq, ih, Option.isNone_iff_eq_none]
+    constructor
+    · rintro ⟨⟨h1, h2⟩, h3⟩; exact ⟨h1, h2, h3⟩
+    · rintro ⟨h1, h2, h3⟩; exact ⟨⟨h1, h2⟩, h3⟩
+
 theorem runAttempt_inv {fs : FS} {F : String} {Q : Option Bytes → Prop} (h : HInv fs F Q) (a : Attempt)
     (hne : a.tmp ≠ F) (hopen : a.trunc = true ∨ fs.dirNow.get a.tmp = none) :
     HInv (runAttempt F fs a) F (fun r => Q r ∨ r = some a.chunks.flatten) := by
